@@ -112,7 +112,7 @@ static bool feed_one(P& parser, M& msg, const std::string& seg, std::ostream& os
 static std::string handle(const std::string& line)
 {
     auto t = pv::split(line);
-    if (t.size() < 3 || (t[0] != "P" && t[0] != "Q"))
+    if (t.size() < 3 || (t[0] != "P" && t[0] != "Q" && t[0] != "PV"))
         return "BADCASE";
     const bool req   = t[1] == "R";
     const size_t max = std::stoul(t[2]);
@@ -130,7 +130,7 @@ static std::string handle(const std::string& line)
             finished = false;
             continue;
         }
-        if (finished && t[0] == "P")
+        if (finished && t[0] != "Q")
             break;
         if (finished)
             continue; // rest of an already finished message is not delivered
